@@ -130,8 +130,9 @@ Definition mk_initargs hp own inh : list (nat * nat) := flat_map slot_initargs (
 Definition mk_initforms hp own inh : list (nat * Z) := flat_map slot_initforms (all_slots hp own inh).
 Definition mk_prec (n : nat) (inh : list (nat * nat)) : list nat := n :: map snd inh ++ [SO; TT].
 
-(* mergeSupers on the object at heap index id.  On failure only the inherit list is emptied
-   (c.inherit = c.inherit[:0]; return false): precedence, initArgs, initForms keep their old contents. *)
+(* mergeSupers on the object at heap index id.  On failure the inherit list and the precedence list are
+   emptied (repo_fixes/C12-3: c.inherit = c.inherit[:0]; c.precedence = nil; return false): the class is not
+   ready; initArgs, initForms keep their old contents (nothing reads them while the class is not ready). *)
 Definition merge (w : world) (id : nat) : world * bool :=
   match get w id with
   | None => (w, false)
@@ -139,7 +140,7 @@ Definition merge (w : world) (id : nat) : world * bool :=
       match phase1 (reg w) (heap w) (co_supers c) [] with
       | None =>
           (with_heap w (set_nth (heap w) id
-             (mkCO (co_name c) (co_supers c) (co_slots c) [] (co_prec c) (co_initargs c) (co_initforms c))), false)
+             (mkCO (co_name c) (co_supers c) (co_slots c) [] [] (co_initargs c) (co_initforms c))), false)
       | Some directs =>
           let inh := phase2 (heap w) directs directs in
           (with_heap w (set_nth (heap w) id
@@ -202,9 +203,13 @@ Definition slot_methods (w : world) (n : nat) (sd : slotdef) : world :=
   if sd_accessor sd then add_method (add_method w2 (gkey KAR s) n) (gkey KAW s) n else w2.
 
 (* Aux.Call up to the choice of the effective method: the cache is keyed by Hierarchy()[0], the class
-   NAME; a miss walks the argument's precedence list and keeps the names that have a method; an empty
+   NAME; a miss walks the argument's hierarchy (its precedence list) and keeps the names that have a method; an empty
    result is not cached (no-applicable-method).  None: no applicable method / the instance does not exist. *)
 Definition applicable (g : gf) (prec : list nat) : list nat := filter (fun h => memb h (g_methods g)) prec.
+(* StandardObject.Hierarchy (repo_fixes/C12-3): the precedence list of the class of the instance; (t) while
+   that class is not ready (it inherits a class that was redefined with a superclass not defined yet) *)
+Definition hier_of (prec : list nat) : list nat := match prec with [] => [TT] | _ => prec end.
+Definition hier (c : cobj) : list nat := hier_of (co_prec c).
 Definition call_gf (w : world) (k i : nat) : world * option (list nat) :=
   match nth_error (insts w) i with
   | None => (w, None)
@@ -212,14 +217,14 @@ Definition call_gf (w : world) (k i : nat) : world * option (list nat) :=
       match get w (i_cid ins) with
       | None => (w, None)
       | Some c =>
-          match co_prec c with
+          match hier c with
           | [] => (w, None)
           | key :: _ =>
               let g := get_gf w k in
               match lookup (g_cache g) key with
               | Some l => (w, Some l)
               | None =>
-                  match applicable g (co_prec c) with
+                  match applicable g (hier c) with
                   | [] => (w, None)
                   | l => (with_gfs w (set_assoc (gfs w) k (mkGF (g_methods g) (set_assoc (g_cache g) key l))), Some l)
                   end
@@ -389,7 +394,7 @@ Definition step (w : world) (o : op) (rorder corder : list nat) : world * obs :=
   | OTypep i n =>
       match nth_error (insts w) i with
       | None => (w, OErr)
-      | Some ins => match get w (i_cid ins) with None => (w, OErr) | Some c => (w, OB (memb n (co_prec c))) end
+      | Some ins => match get w (i_cid ins) with None => (w, OErr) | Some c => (w, OB (memb n (hier c))) end
       end
   | OClassOf i =>
       match nth_error (insts w) i with
